@@ -6,7 +6,7 @@ from .common import *
 
 META = {
     'title': 'MD4/MD5/SHA-0/1/2: constants, Boolean functions, round terms, length strengthening, guards',
-    'expected_min': 60,
+    'expected_min': 245,
     'explanation': 'Constants of SHA-1/SHA-2/MD4/MD5 are folded from the AST and compared with values derived '
                    'from the standards formulas (cube/square roots of primes, sines, FIPS 180-4 5.3.6 IV generation); '
                    'Boolean round functions are tabulated on all 8 input rows; update/iterblocks/__call__/padding '
